@@ -10,7 +10,7 @@
 //! the crashing input and target are identified exactly, then restarted after it.
 //!
 //! Inputs (per build and format):
-//!  S1  every byte string of length ≤ L over {00,01,02,04,08,'a','/',80,ff} (L = 4 quick, 5
+//!  S1  every byte string of length ≤ L over {00,01,02,04,08,'a','/',80,ff} (L = 4 quick, 6
 //!      thorough), both byte orders → every type with ≤ 2 nodes (+ a bank of 3-node container
 //!      types), typed Rust target and dynamic targets;
 //!  S2  every string of length ≤ L+1 over a signature-flavoured alphabet → `Value`;
@@ -22,8 +22,9 @@
 //!      alphabet, variant chains to depth 100 (and 1000/10000), GVariant framing-offset bytes set to
 //!      every byte value, wide tuples of strings around the 256-byte offset-width threshold.
 //!
-//! Oracle: no panic, no abnormal child exit, peak allocation of a decode ≤ 64 KiB + 64 × input
-//! length, re-encoding a decoded value does not panic.
+//! Oracle: no panic, no abnormal child exit, peak allocation of a decode ≤ 256 KiB + 1024 × input
+//! length ("far beyond the input size" read generously: the dynamic `Value` tree alone costs up to
+//! 128 bytes per input byte), re-encoding a decoded value does not panic.
 
 use serde_json::{json, Value as J};
 use std::alloc::{GlobalAlloc, Layout, System};
@@ -467,100 +468,25 @@ fn for_each_input(tier: vcommon::Tier, tgts: &[Target], mut f: impl FnMut(u64, &
     };
     let fmts = formats();
 
-    // S1: exhaustive strings over the byte alphabet
-    let l1 = tier.pick(4, 5);
-    for fmt in &fmts {
-        for be in [false, true] {
-            strings_over(&ALPHA, l1, |b| {
-                emit(&Input { section: "S1-strings", fmt: *fmt, be, pos: 0, bytes: b, aim: Aim::All })
-            });
-        }
-    }
-    // S2: exhaustive strings over the signature-flavoured alphabet, for variants
-    for fmt in &fmts {
-        strings_over(&ALPHA_SIG, l1 + 1, |b| {
-            emit(&Input { section: "S2-sig-strings", fmt: *fmt, be: false, pos: 0, bytes: b, aim: Aim::Variant })
-        });
-    }
-
-    // S3: mutations of valid encodings
-    let dom = rv::Domain { cap: 8, variant_payloads: rv::all_types(2, false), exotic_floats: false };
-    let mut capped = false;
-    let mut mutate = |section: &'static str, fmt: Fmt, be: bool, pos: usize, enc: &[u8], aim: Aim,
-                      emit: &mut dyn FnMut(&Input<'_>)| {
-        // the unmodified encoding, every truncation, every substitution
-        for cut in 0..=enc.len() {
-            emit(&Input { section, fmt, be, pos, bytes: &enc[..cut], aim });
-        }
-        let mut m = enc.to_vec();
-        for i in 0..enc.len() {
-            for a in ALPHA {
-                if a == enc[i] {
-                    continue;
-                }
-                m[i] = a;
-                emit(&Input { section, fmt, be, pos, bytes: &m, aim });
-                if thorough {
-                    for j in (i + 1)..enc.len().min(i + 8) {
-                        let keep = m[j];
-                        for b in [0x00u8, 0x01, 0xff, b'a'] {
-                            if b == keep {
-                                continue;
-                            }
-                            m[j] = b;
-                            emit(&Input { section, fmt, be, pos, bytes: &m, aim });
-                        }
-                        m[j] = keep;
-                    }
-                }
-            }
-            m[i] = enc[i];
-        }
-    };
-    for (ti, t) in tgts.iter().enumerate() {
-        let Some(ty) = &t.ty else { continue };
-        for v in rv::values(ty, &dom, &mut capped) {
-            for fmt in &fmts {
-                if *fmt == Fmt::DBus && ty.contains(&|x| matches!(x, Ty::Maybe(_))) {
-                    continue; // no D-Bus encoding exists
-                }
-                for (be, pos) in [(false, 0usize), (true, 0), (false, 3)] {
-                    let enc = reference_bytes(&v, *fmt, be, pos);
-                    mutate("S3-mutations", *fmt, be, pos, &enc, Aim::One(ti), &mut emit);
-                }
-            }
-        }
-    }
-    // variant-wrapped values of every type with ≤ 3 nodes
-    let dom3 = rv::Domain { cap: 4, variant_payloads: rv::all_types(1, false), exotic_floats: false };
-    for ty in rv::all_types(3, cfg!(feature = "gvariant")) {
-        let has_maybe = ty.contains(&|x| matches!(x, Ty::Maybe(_)));
-        let mut vals = rv::values(&ty, &dom3, &mut capped);
-        if !thorough && vals.len() > 3 {
-            vals = vec![vals[0].clone(), vals[vals.len() / 2].clone(), vals[vals.len() - 1].clone()];
-        }
-        for v in vals {
-            let wrapped = RV::V(Box::new((ty.clone(), v)));
-            for fmt in &fmts {
-                if *fmt == Fmt::DBus && has_maybe {
-                    continue;
-                }
-                let enc = reference_bytes(&wrapped, *fmt, false, 0);
-                mutate("S3-variant-mutations", *fmt, false, 0, &enc, Aim::Variant, &mut emit);
-            }
-        }
-    }
+    // (sections run in the order S4, S3, S2, S1: the inputs that can kill the process come first so that
+    // restarting a child after a crash does not have to skip the bulk)
+    let l1 = tier.pick(4, 6);
 
     // S4a: variant signatures of every bracket kind
     for fmt in &fmts {
         let lens: Vec<usize> = match fmt {
             Fmt::DBus => vec![255],
             // nothing bounds the signature length of a GVariant variant
-            Fmt::GV => vec![255, 1000, 10_000, 100_000],
+            Fmt::GV => vec![255, 1000, 4000, 10_000, 100_000],
         };
         for len in lens {
-            for (_name, sig) in bracket_signatures(len) {
-                for body_len in [0usize, 8, 64] {
+            for (name, sig) in bracket_signatures(len) {
+                // beyond 255 bytes: one body; 100 000 bytes for the plain array prefix only
+                if len == 100_000 && name != "a*" {
+                    continue;
+                }
+                let bodies: &[usize] = if len > 255 { &[64] } else { &[0, 8, 64] };
+                for &body_len in bodies {
                     let body = vec![0u8; body_len];
                     let bytes = match fmt {
                         Fmt::DBus => dbus_variant(&sig, &body),
@@ -680,6 +606,88 @@ fn for_each_input(tier: vcommon::Tier, tgts: &[Target], mut f: impl FnMut(u64, &
             }
         }
     }
+    // S3: mutations of valid encodings
+    let dom = rv::Domain { cap: 8, variant_payloads: rv::all_types(2, false), exotic_floats: false };
+    let mut capped = false;
+    let mutate = |section: &'static str, fmt: Fmt, be: bool, pos: usize, enc: &[u8], aim: Aim,
+                      emit: &mut dyn FnMut(&Input<'_>)| {
+        // the unmodified encoding, every truncation, every substitution
+        for cut in 0..=enc.len() {
+            emit(&Input { section, fmt, be, pos, bytes: &enc[..cut], aim });
+        }
+        let mut m = enc.to_vec();
+        for i in 0..enc.len() {
+            for a in ALPHA {
+                if a == enc[i] {
+                    continue;
+                }
+                m[i] = a;
+                emit(&Input { section, fmt, be, pos, bytes: &m, aim });
+                if thorough {
+                    for j in (i + 1)..enc.len().min(i + 8) {
+                        let keep = m[j];
+                        for b in [0x00u8, 0x01, 0xff, b'a'] {
+                            if b == keep {
+                                continue;
+                            }
+                            m[j] = b;
+                            emit(&Input { section, fmt, be, pos, bytes: &m, aim });
+                        }
+                        m[j] = keep;
+                    }
+                }
+            }
+            m[i] = enc[i];
+        }
+    };
+    for (ti, t) in tgts.iter().enumerate() {
+        let Some(ty) = &t.ty else { continue };
+        for v in rv::values(ty, &dom, &mut capped) {
+            for fmt in &fmts {
+                if *fmt == Fmt::DBus && ty.contains(&|x| matches!(x, Ty::Maybe(_))) {
+                    continue; // no D-Bus encoding exists
+                }
+                for (be, pos) in [(false, 0usize), (true, 0), (false, 3)] {
+                    let enc = reference_bytes(&v, *fmt, be, pos);
+                    mutate("S3-mutations", *fmt, be, pos, &enc, Aim::One(ti), &mut emit);
+                }
+            }
+        }
+    }
+    // variant-wrapped values of every type with ≤ 3 nodes
+    let dom3 = rv::Domain { cap: 4, variant_payloads: rv::all_types(1, false), exotic_floats: false };
+    for ty in rv::all_types(3, cfg!(feature = "gvariant")) {
+        let has_maybe = ty.contains(&|x| matches!(x, Ty::Maybe(_)));
+        let mut vals = rv::values(&ty, &dom3, &mut capped);
+        if !thorough && vals.len() > 3 {
+            vals = vec![vals[0].clone(), vals[vals.len() / 2].clone(), vals[vals.len() - 1].clone()];
+        }
+        for v in vals {
+            let wrapped = RV::V(Box::new((ty.clone(), v)));
+            for fmt in &fmts {
+                if *fmt == Fmt::DBus && has_maybe {
+                    continue;
+                }
+                let enc = reference_bytes(&wrapped, *fmt, false, 0);
+                mutate("S3-variant-mutations", *fmt, false, 0, &enc, Aim::Variant, &mut emit);
+            }
+        }
+    }
+
+    // S1: exhaustive strings over the byte alphabet
+    for fmt in &fmts {
+        for be in [false, true] {
+            strings_over(&ALPHA, l1, |b| {
+                emit(&Input { section: "S1-strings", fmt: *fmt, be, pos: 0, bytes: b, aim: Aim::All })
+            });
+        }
+    }
+    // S2: exhaustive strings over the signature-flavoured alphabet, for variants
+    for fmt in &fmts {
+        strings_over(&ALPHA_SIG, l1 + 1, |b| {
+            emit(&Input { section: "S2-sig-strings", fmt: *fmt, be: false, pos: 0, bytes: b, aim: Aim::Variant })
+        });
+    }
 }
 
 // ------------------------------------------------------------------------------------------
@@ -687,8 +695,11 @@ fn for_each_input(tier: vcommon::Tier, tgts: &[Target], mut f: impl FnMut(u64, &
 // ------------------------------------------------------------------------------------------
 
 const BATCH: u64 = 512;
-const ALLOC_BASE: usize = 64 * 1024;
-const ALLOC_FACTOR: usize = 64;
+/// Allocation bound: 256 KiB + 1024 × input length. The dynamic `Value` representation costs 64 bytes
+/// per decoded element (× 2 for `Vec` growth), so anything below a few hundred × the input is inherent;
+/// only amplification by three orders of magnitude is flagged.
+const ALLOC_BASE: usize = 256 * 1024;
+const ALLOC_FACTOR: usize = 1024;
 
 struct Part {
     evals: u64,
@@ -697,7 +708,7 @@ struct Part {
     violations: Vec<J>,
     kept: BTreeMap<String, u32>,
     nontrivial: HashSet<u64>,
-    nontrivial_new: u64,
+    nontrivial_new: Vec<u64>,
     samples: Vec<J>,
     max_peak: usize,
 }
@@ -711,7 +722,7 @@ impl Part {
             violations: vec![],
             kept: BTreeMap::new(),
             nontrivial: HashSet::new(),
-            nontrivial_new: 0,
+            nontrivial_new: vec![],
             samples: vec![],
             max_peak: 0,
         }
@@ -719,7 +730,8 @@ impl Part {
     fn flush(&mut self) {
         let j = json!({
             "evals": self.evals, "inputs": self.inputs, "outcomes": self.outcomes,
-            "violations": self.violations, "nontrivial": self.nontrivial_new, "samples": self.samples,
+            "violations": self.violations, "samples": self.samples,
+            "nontrivial": self.nontrivial_new.iter().map(|h| format!("{h:x}")).collect::<Vec<_>>(),
             "max_peak": self.max_peak,
         });
         println!("PART {j}");
@@ -727,7 +739,7 @@ impl Part {
         self.inputs = 0;
         self.outcomes.clear();
         self.violations.clear();
-        self.nontrivial_new = 0;
+        self.nontrivial_new.clear();
         self.samples.clear();
     }
     fn violation(&mut self, clause: &str, feats: &[(&str, String)], detail: String, replay: J) {
@@ -767,7 +779,7 @@ fn eval_one(
     fine: bool,
 ) -> bool {
     if fine {
-        println!("CURSOR {idx} {ti} {route}");
+        println!("CURSOR {idx} {ti} {route} {}", t.ty_sig);
     }
     let out = if route == 3 { run_option_as_array(t, data) } else { run_route(t, route, data) };
     let Some(out) = out else { return false };
@@ -824,7 +836,7 @@ fn eval_one(
     if peak > ALLOC_BASE + ALLOC_FACTOR * inp.bytes.len() {
         part.violation(
             "bounded-allocation",
-            &base(vec![("target_kind", target_kind(t)), ("route", rname.to_string())]),
+            &base(vec![("target_kind", target_kind(t)), ("section", inp.section.to_string())]),
             format!("{}: peak allocation {} bytes for a {}-byte input", descr(), peak, inp.bytes.len()),
             replay_payload(inp, &t.ty_sig, rname),
         );
@@ -848,6 +860,10 @@ fn eval_input(part: &mut Part, idx: u64, inp: &Input<'_>, tgts: &[Target], vi: u
     let Some(c) = ctx(inp.fmt, inp.be, inp.pos) else { return };
     let data: Data<'_> = zvariant::serialized::Data::new_borrowed_fds(inp.bytes, c, fds.fds.iter().map(|f| f.as_fd()));
     part.inputs += 1;
+    if fine {
+        println!("INPUT {idx} {}", json!({"section": inp.section, "format": inp.fmt.name(), "be": inp.be, "pos": inp.pos,
+            "bytes": vcommon::hex(inp.bytes), "config": config_name()}));
+    }
     let mut any_ok = false;
     let range: Vec<usize> = match inp.aim {
         Aim::All => (0..tgts.len()).collect(),
@@ -866,9 +882,9 @@ fn eval_input(part: &mut Part, idx: u64, inp: &Input<'_>, tgts: &[Target], vi: u
         }
     }
     if any_ok {
-        let h = hash64(&(inp.bytes, inp.fmt.name(), inp.be, inp.pos));
+        let h = hash64(&(config_name(), inp.bytes, inp.fmt.name(), inp.be, inp.pos));
         if part.nontrivial.insert(h) {
-            part.nontrivial_new += 1;
+            part.nontrivial_new.push(h);
         }
         if part.samples.len() < 2 && idx % 977 == 0 {
             part.samples.push(json!({"config": config_name(), "section": inp.section, "format": inp.fmt.name(),
@@ -1023,6 +1039,10 @@ fn zv_bins() -> Vec<(String, String)> {
 struct ChildRun {
     status: std::process::ExitStatus,
     last_cursor: Option<(u64, Option<(usize, usize)>)>,
+    /// signature of the target named by the last fine cursor
+    last_target: String,
+    /// payload of the last `INPUT` line (fine mode)
+    last_input: J,
     done: bool,
     stderr_tail: String,
 }
@@ -1046,6 +1066,8 @@ fn run_child(bin: &str, tier: vcommon::Tier, extra: &[String], mut on_part: impl
         .unwrap_or_else(|e| vcommon::machinery_failure(&format!("C04: cannot start {bin}: {e}")));
     let out = child.stdout.take().unwrap();
     let mut last_cursor = None;
+    let mut last_target = String::new();
+    let mut last_input = J::Null;
     let mut done = false;
     for line in BufReader::new(out).lines() {
         let Ok(line) = line else { break };
@@ -1054,7 +1076,12 @@ fn run_child(bin: &str, tier: vcommon::Tier, extra: &[String], mut on_part: impl
             let idx: u64 = it.next().and_then(|s| s.parse().ok()).unwrap_or(0);
             let t = it.next().and_then(|s| s.parse().ok());
             let r = it.next().and_then(|s| s.parse().ok());
+            last_target = it.next().unwrap_or("").to_string();
             last_cursor = Some((idx, t.zip(r)));
+        } else if let Some(rest) = line.strip_prefix("INPUT ") {
+            if let Some((_, j)) = rest.split_once(' ') {
+                last_input = serde_json::from_str(j).unwrap_or(J::Null);
+            }
         } else if let Some(rest) = line.strip_prefix("PART ") {
             if let Ok(j) = serde_json::from_str::<J>(rest) {
                 on_part(&j);
@@ -1074,7 +1101,7 @@ fn run_child(bin: &str, tier: vcommon::Tier, extra: &[String], mut on_part: impl
     }
     let _ = std::fs::remove_file(&errfile);
     let tail: String = tail.lines().rev().take(4).collect::<Vec<_>>().into_iter().rev().collect::<Vec<_>>().join(" | ");
-    ChildRun { status, last_cursor, done, stderr_tail: tail }
+    ChildRun { status, last_cursor, last_target, last_input, done, stderr_tail: tail }
 }
 
 fn crash_kind(run: &ChildRun) -> String {
@@ -1091,55 +1118,18 @@ fn crash_kind(run: &ChildRun) -> String {
     }
 }
 
-fn child_describe(args: &Args) -> i32 {
-    let Some(spec) = arg_after(&args.extra, "--describe") else { return 2 };
-    let mut it = spec.split(',');
-    let idx: u64 = it.next().and_then(|s| s.parse().ok()).unwrap_or(0);
-    let ti: usize = it.next().and_then(|s| s.parse().ok()).unwrap_or(0);
-    let route: usize = it.next().and_then(|s| s.parse().ok()).unwrap_or(0);
-    let tgts = targets();
-    let mut found = None;
-    for_each_input(args.tier, &tgts, |i, inp| {
-        if i == idx {
-            let rname = if route == 3 { "typed-option-as-array" } else { ROUTES[route.min(2)] };
-            found = Some(json!({"payload": replay_payload(inp, &tgts[ti.min(tgts.len() - 1)].ty_sig, rname),
-                                "section": inp.section, "len": inp.bytes.len()}));
-        }
-    });
-    match found {
-        Some(j) => {
-            println!("DESCRIBE {j}");
-            0
-        }
-        None => 2,
-    }
-}
-
-fn describe_via_child(bin: &str, tier: vcommon::Tier, idx: u64, ti: usize, route: usize) -> J {
-    let out = std::process::Command::new(bin)
-        .arg("C04")
-        .arg("--tier")
-        .arg(tier.as_str())
-        .arg("--describe")
-        .arg(format!("{idx},{ti},{route}"))
-        .output();
-    if let Ok(o) = out {
-        for line in String::from_utf8_lossy(&o.stdout).lines() {
-            if let Some(rest) = line.strip_prefix("DESCRIBE ") {
-                if let Ok(j) = serde_json::from_str::<J>(rest) {
-                    return j;
-                }
-            }
-        }
-    }
-    J::Null
-}
-
 fn merge_part(report: &Report, j: &J, nontrivial: &std::sync::atomic::AtomicU64, max_peak: &std::sync::atomic::AtomicU64) {
     use std::sync::atomic::Ordering;
     report.eval(j["evals"].as_u64().unwrap_or(0));
     report.add("inputs", j["inputs"].as_u64().unwrap_or(0));
-    nontrivial.fetch_add(j["nontrivial"].as_u64().unwrap_or(0), Ordering::Relaxed);
+    let hs: Vec<u64> = j["nontrivial"]
+        .as_array()
+        .into_iter()
+        .flatten()
+        .filter_map(|h| u64::from_str_radix(h.as_str()?, 16).ok())
+        .collect();
+    nontrivial.fetch_add(hs.len() as u64, Ordering::Relaxed);
+    report.nontrivial_many(hs);
     max_peak.fetch_max(j["max_peak"].as_u64().unwrap_or(0), Ordering::Relaxed);
     if let Some(o) = j["outcomes"].as_object() {
         for (k, n) in o {
@@ -1214,9 +1204,6 @@ pub fn main(args: &Args) -> i32 {
     }
     if args.extra.iter().any(|a| a == "--one") {
         return child_one(args);
-    }
-    if args.extra.iter().any(|a| a == "--describe") {
-        return child_describe(args);
     }
     if let Some(p) = &args.replay {
         return replay(p);
@@ -1293,8 +1280,12 @@ pub fn main(args: &Args) -> i32 {
                             n_crashes += 1;
                             crashes.fetch_add(1, std::sync::atomic::Ordering::Relaxed);
                             let kind = crash_kind(&run);
-                            let d = describe_via_child(bin, tier, idx, ti, route);
-                            let p = &d["payload"];
+                            let mut p = run.last_input.clone();
+                            let rname = if route == 3 { "typed-option-as-array" } else { ROUTES[route.min(2)] };
+                            p["target"] = json!(run.last_target);
+                            p["route"] = json!(rname);
+                            let d = json!({"len": p["bytes"].as_str().map(|h| h.len() / 2).unwrap_or(0), "section": p["section"]});
+                            let p = &p;
                             report.outcome(&format!("{}/child-died:{kind}", p["format"].as_str().unwrap_or("?")));
                             report.violation(
                                 Violation::new(
@@ -1331,13 +1322,12 @@ pub fn main(args: &Args) -> i32 {
             });
         }
     });
-    report.set("distinct_nontrivial", json!(nontrivial.load(std::sync::atomic::Ordering::Relaxed)));
     report.set("max_peak_allocation_bytes", json!(max_peak.load(std::sync::atomic::Ordering::Relaxed)));
     report.set("child_crashes", json!(crashes.load(std::sync::atomic::Ordering::Relaxed)));
     report.set("builds", json!(bins.iter().map(|(k, _)| k.clone()).collect::<Vec<_>>()));
     report.set("shards_per_build", json!(shards));
     report.assume("children decode on a 2 MiB thread stack; a panic is caught per case, any other death of the child is attributed to the (input, target) named by the last cursor line");
-    report.assume("allocation is measured per decode by a counting global allocator (thread-local peak of live bytes since the decode started); bound 64 KiB + 64 × input length");
+    report.assume("allocation is measured per decode by a counting global allocator (thread-local peak of live bytes since the decode started); bound 256 KiB + 1024 × input length (the dynamic Value tree inherently costs up to 128 bytes per input byte)");
     if args.tier == vcommon::Tier::Quick {
         report.cap("quick tier: strings ≤ 4 (≤ 5 for the signature alphabet), three values per type in the variant-mutation corpus, single substitutions only");
     }
